@@ -460,6 +460,56 @@ def _from_call(f, h, c, depth=0):
     return False
 
 
+def rule_nil_at_pop(ctx, rep, config="c-lib"):
+    rep.rule("C03-nil-pop", "make_parse writes the NIL node into the parent's slot for a finished rule only when the rule has no abstract node of its own: the placement "
+                            "place_translation (parent children + parent_disp, NIL) is controlled by `state->anode == NULL' for the state being popped (a rule with an "
+                            "abstract node has placed that node in the slot already -- a second placement turns the slot into an ALT of NIL and the node, also when one "
+                            "parse was requested)")
+    from .r5 import _controlling_conditions
+    from ..model import const_int
+    p = ctx.prog(config)
+    f = p.fn("make_parse")
+    rep.cover(p, [f.name])
+    nil = None
+    for s_ in f.all_insts():
+        if s_.op == "store" and resolve_addr(f, s_.ops[1]).last_field() == "yaep_tree_node.type" and const_int(s_.ops[0]) == 0:
+            pa = resolve_addr(f, s_.ops[1])
+            if pa.root[0] == "val":
+                nil = strip_casts(f, pa.root[1])
+    if nil is None:
+        raise AnalysisBroken("C03-nil-pop: the NIL node of make_parse was not found")
+    n = 0
+    for c in f.calls():
+        if c.callee != "place_translation" or strip_casts(f, c.args[1]) != nil:
+            continue
+        sl = f.inst(strip_casts(f, c.args[0]))
+        if sl is not None and sl.op in ("phi", "select"):
+            continue      # `anode == NULL ? parent slot : own slot': the choice of the slot is the test itself (C03-slot pairs node and index)
+        n += 1
+        key = "make_parse/nil-into-parent-slot#%d" % n
+        own_null = False
+        for (cc, pol) in _controlling_conditions(f, c.block.name):
+            if cc.d["pred"] not in ("eq", "ne") or strip_casts(f, cc.ops[1]).get("k") != "null" or (cc.d["pred"] == "eq") != pol:
+                continue
+            l_ = f.inst(strip_casts(f, cc.ops[0]))
+            if l_ is None or l_.op != "load":
+                continue
+            pa = resolve_addr(f, l_.ops[0])
+            if pa.last_field() != "parse_state.anode" or pa.root[0] != "val":
+                continue
+            st = loaded_from(f, pa.root[1])
+            if st is not None and st.last_field() == "parse_state.parent_anode_state":
+                continue      # the parent's node
+            own_null = True
+        if own_null:
+            rep.ok("C03-nil-pop", key, sample={"placement": c.where()})
+        else:
+            rep.violation("C03-nil-pop", key, "the NIL node is placed into the parent's slot without `the popped state has no abstract node': for a rule with an abstract "
+                          "node without children the slot already holds that node and becomes ALT {NIL | node} -- an ALT node although one parse was requested, and a "
+                          "translation that no derivation has", where=c.where(), witness=[c.where()])
+    rep.floor("C03-nil-pop", "placements of the NIL node by place_translation", n, 1)
+
+
 def rule_copy_slots(ctx, rep, config="c-lib"):
     rep.rule("C03-copy-slots", "copy_anode keeps every child of the original except the slot that is being filled: every comparison of the child index with the `disp' "
                                "parameter inside copy_anode is an equality (a relational test empties the slots on one side of it -- translations already placed there "
